@@ -4,15 +4,15 @@
 (* ledger (GA): collecting from iterators (Collect), the record-level      *)
 (* checks (views, layout, comparison, hex, ...) that need no ledger state. *)
 (***************************************************************************)
-EXTENDS Views
+EXTENDS Heap
 
-xVars == <<mem>>
+xVars == <<mem, hx>>
 
 NoMem == [cells |-> <<>>, parts |-> <<>>, esize |-> 0]
-XInit == mem = NoMem
-XReset == mem' = NoMem
-XQuiescent == TRUE
-XInv == TRUE
+XInit == mem = NoMem /\ HxInit
+XReset == mem' = NoMem /\ hx' = [relblk |-> <<>>, failed |-> FALSE, ended |-> FALSE]
+XQuiescent == HeapQuiescent
+XInv == HeapInv
 
 RetX(r) == RetCollect(r)
 UnwoundX(u) == UnwoundCollect(u)
@@ -20,13 +20,20 @@ DropX(e, panics) == CollectDrop(e, panics)
 
 \* events that carry their own verdict data and need no ledger state
 XEvent(r) ==
-    \/ /\ r.ev = "hint" /\ Hint(r) /\ UNCHANGED mem
-    \/ /\ r.ev = "poll" /\ Poll /\ UNCHANGED mem
+    \/ /\ r.ev = "hint" /\ Hint(r) /\ UNCHANGED <<mem, hx>>
+    \/ /\ r.ev = "poll" /\ Poll /\ UNCHANGED <<mem, hx>>
     \/ /\ r.ev = "poll_ret"
        /\ PollRet(IF Anonymous /\ Len(r.some) = 1 THEN [r EXCEPT !.some = <<NewId>>] ELSE r)
-       /\ UNCHANGED mem
-    \/ /\ r.ev = "vsrc" /\ VSrc(r) /\ UNCHANGED gaVars
-    \/ /\ r.ev = "view" /\ VView(r) /\ UNCHANGED gaVars
-    \/ /\ r.ev = "vwrite" /\ VWrite(r) /\ UNCHANGED gaVars
-    \/ /\ r.ev = "vread" /\ VRead(r) /\ UNCHANGED gaVars
+       /\ UNCHANGED <<mem, hx>>
+    \/ /\ r.ev = "vsrc" /\ VSrc(r) /\ UNCHANGED <<gaVars, hx>>
+    \/ /\ r.ev = "view" /\ VView(r) /\ UNCHANGED <<gaVars, hx>>
+    \/ /\ r.ev = "vwrite" /\ VWrite(r) /\ UNCHANGED <<gaVars, hx>>
+    \/ /\ r.ev = "vread" /\ VRead(r) /\ UNCHANGED <<gaVars, hx>>
+    \/ /\ r.ev = "alloc" /\ AllocEv(r) /\ UNCHANGED mem
+    \/ /\ r.ev = "dealloc" /\ DeallocEv(r) /\ UNCHANGED mem
+    \/ /\ r.ev = "realloc" /\ ReallocEv(r) /\ UNCHANGED mem
+    \/ /\ r.ev = "alloc_fail" /\ AllocFailEv(r) /\ UNCHANGED mem
+    \/ /\ r.ev = "exit" /\ ExitEv(r) /\ UNCHANGED mem
+    \/ /\ r.ev = "big" /\ BigOK(r) /\ UNCHANGED <<gaVars, xVars>>
+    \/ /\ r.ev = "big_done" /\ r.ok /\ UNCHANGED <<gaVars, xVars>>
 =============================================================================
